@@ -37,6 +37,7 @@ def make_universe():
         'Stack': ('list', 'Triple', 'stack'),
         'Out': ('list', 'Obj', 'snoc'),
         'WR': ('record', [('status', 'Status'), ('w', 'Int')]),
+        'St': ('record', [('out', 'Out'), ('col', 'Int'), ('k', 'Int')]),
     })
     for c in ('Concat', 'Nest', 'Group', 'AlwaysBreak', 'Fill', 'FlatChoice', 'Annotated', 'Contextual',
               'SLine', 'SAnnotationPush', 'SAnnotationPop', 'Nil', 'HardLine'):
@@ -51,6 +52,7 @@ def make_universe():
     # page width and ribbon width of the layout call the spec functions talk about
     U.consts['PW'] = z3.Int('PW')
     U.consts['RW'] = z3.Int('RW')
+    U.consts['SMART'] = z3.Bool('SMART')      # which fitting predicate the layout call uses
 
     fmul = z3.Function('float_mul_int', U.sort('Float'), z3.IntSort(), U.sort('Float'))
     fround = z3.Function('py_round', U.sort('Float'), z3.IntSort())
@@ -77,3 +79,4 @@ def make_universe():
 
 def float_binop_hook(U):
     pass
+
